@@ -1,8 +1,676 @@
 /-
 Proofs/Grammar — helper lemmas for C14 / C15.
+
+The recursive-descent parser of `Model/Grammar` re-reads the minimal rendering
+(`Printer.renderToks`) of every well-formed tree.  `lvl`, `WFx`, … are copies of the
+definitions `level`, `WF`, … of `Props/C14` (which imports this file); C14 proves that
+they coincide.
+
+Structure of the proof: for every precedence level `k` a predicate `Sk e` says "the
+parser function of level `k` reads `renderToks e ++ rest` as `e`" — in continuation
+style for the levels that have a loop (`||`, `&&`, `+ -`, `* /`, method calls): whatever
+the loop of that level returns when started with the accumulator `e` on `rest` is what
+the parser function returns on `renderToks e ++ rest`.  Fuel is handled by explicit lower
+bounds (`16 * tokens + 2 * (7 - k)`), no monotonicity lemma is needed.
 -/
 import BiscuitModel.Model.Printer
 
 namespace Biscuit.Grammar
+open Biscuit Biscuit.Printer
+
+/-! ## Copies of the definitions of Props/C14 -/
+
+def lvl : PExpr → Nat
+  | .bin .or _ _ => 0
+  | .bin .and _ _ => 1
+  | .bin .lt _ _ | .bin .le _ _ | .bin .gt _ _ | .bin .ge _ _ | .bin .eq _ _ => 2
+  | .bin .add _ _ | .bin .sub _ _ => 3
+  | .bin .mul _ _ | .bin .div _ _ => 4
+  | .bin _ _ _ => 8
+  | .neg _ => 5
+  | .method _ _ _ | .length _ => 6
+  | .term _ | .paren _ => 7
+
+def isMethOp : BinOp → Bool
+  | .contains | .pfx | .sfx | .regex | .intersection | .union => true
+  | _ => false
+
+def AtomOK : PTerm → Prop
+  | .set _ => False
+  | _ => True
+
+def TermOK : PTerm → Prop
+  | .set elts => elts ≠ [] ∧ ∀ t ∈ elts, AtomOK t
+  | _ => True
+
+def WFx : PExpr → Prop
+  | .term t => TermOK t
+  | .paren e => WFx e
+  | .neg e => WFx e ∧ lvl e ≥ 6
+  | .bin op l r =>
+    WFx l ∧ WFx r ∧ lvl (.bin op l r) ≤ 4 ∧
+    (if lvl (.bin op l r) = 2 then lvl l ≥ 3 ∧ lvl r ≥ 3
+     else lvl l ≥ lvl (.bin op l r) ∧ lvl r > lvl (.bin op l r))
+  | .method op recv arg => isMethOp op = true ∧ WFx recv ∧ WFx arg ∧ lvl recv ≥ 6
+  | .length recv => WFx recv ∧ lvl recv ≥ 6
+
+def opLvl : BinOp → Nat
+  | .or => 0 | .and => 1 | .lt | .le | .gt | .ge | .eq => 2 | .add | .sub => 3 | .mul | .div => 4
+  | _ => 8
+
+theorem lvl_bin (op : BinOp) (a b : PExpr) : lvl (.bin op a b) = opLvl op := by
+  cases op <;> rfl
+
+/-! ## Follow sets -/
+
+def orStop (rest : List Tok) : Prop := ∀ r, rest = .orOp :: r → False
+def andStop (rest : List Tok) : Prop := ∀ r, rest = .andOp :: r → False
+def cmpStop (rest : List Tok) : Prop := ∀ t r, rest = t :: r → cmpOfTok t = none
+def addStop (rest : List Tok) : Prop := ∀ t r, rest = t :: r → addOfTok t = none
+def mulStop (rest : List Tok) : Prop := ∀ t r, rest = t :: r → mulOfTok t = none
+def dotStop (rest : List Tok) : Prop := ∀ r, rest = .dot :: r → False
+
+/-- The head of `rest` is not an operator token that a loop of level `≥ k` consumes. -/
+def Follow (k : Nat) (rest : List Tok) : Prop :=
+  (k ≤ 0 → orStop rest) ∧ (k ≤ 1 → andStop rest) ∧ (k ≤ 2 → cmpStop rest) ∧
+  (k ≤ 3 → addStop rest) ∧ (k ≤ 4 → mulStop rest) ∧ (k ≤ 6 → dotStop rest)
+
+theorem Follow.mono {k k' : Nat} {rest : List Tok} (h : Follow k rest) (hk : k ≤ k') :
+    Follow k' rest := by
+  unfold Follow at *
+  exact ⟨fun h' => h.1 (by omega), fun h' => h.2.1 (by omega), fun h' => h.2.2.1 (by omega),
+    fun h' => h.2.2.2.1 (by omega), fun h' => h.2.2.2.2.1 (by omega), fun h' => h.2.2.2.2.2 (by omega)⟩
+
+theorem Follow.or {rest : List Tok} (h : Follow 0 rest) : orStop rest := h.1 (by omega)
+theorem Follow.and {k : Nat} {rest : List Tok} (h : Follow k rest) (hk : k ≤ 1 := by omega) : andStop rest := h.2.1 hk
+theorem Follow.cmp {k : Nat} {rest : List Tok} (h : Follow k rest) (hk : k ≤ 2 := by omega) : cmpStop rest := h.2.2.1 hk
+theorem Follow.add {k : Nat} {rest : List Tok} (h : Follow k rest) (hk : k ≤ 3 := by omega) : addStop rest := h.2.2.2.1 hk
+theorem Follow.mul {k : Nat} {rest : List Tok} (h : Follow k rest) (hk : k ≤ 4 := by omega) : mulStop rest := h.2.2.2.2.1 hk
+theorem Follow.dot {k : Nat} {rest : List Tok} (h : Follow k rest) (hk : k ≤ 6 := by omega) : dotStop rest := h.2.2.2.2.2 hk
+
+/-! ## Loops stop on their follow sets -/
+
+theorem orLoop_stop {rest : List Tok} (h : orStop rest) (f : Nat) (l : PExpr) :
+    orLoop (f + 1) l rest = some (l, rest) := orLoop.eq_3 l rest f h
+
+theorem andLoop_stop {rest : List Tok} (h : andStop rest) (f : Nat) (l : PExpr) :
+    andLoop (f + 1) l rest = some (l, rest) := andLoop.eq_3 l rest f h
+
+theorem addLoop_stop {rest : List Tok} (h : addStop rest) (f : Nat) (l : PExpr) :
+    addLoop (f + 1) l rest = some (l, rest) := by
+  cases rest with
+  | nil => simp [addLoop]
+  | cons t r => rw [addLoop.eq_2, h t r rfl]
+
+theorem mulLoop_stop {rest : List Tok} (h : mulStop rest) (f : Nat) (l : PExpr) :
+    mulLoop (f + 1) l rest = some (l, rest) := by
+  cases rest with
+  | nil => simp [mulLoop]
+  | cons t r => rw [mulLoop.eq_2, h t r rfl]
+
+theorem methodLoop_stop {rest : List Tok} (h : dotStop rest) (f : Nat) (l : PExpr) :
+    methodLoop (f + 1) l rest = some (l, rest) :=
+  methodLoop.eq_4 l rest f (fun _ _ hr => h _ hr)
+
+/-- `∀ f ≥ 1`, phrased for the continuation-style statements below. -/
+theorem orLoop_stop' {rest : List Tok} (h : orStop rest) (l : PExpr) :
+    ∀ f, f ≥ 1 → orLoop f l rest = some (l, rest) := by
+  intro f hf; obtain ⟨g, rfl⟩ : ∃ g, f = g + 1 := ⟨f - 1, by omega⟩; exact orLoop_stop h g l
+theorem andLoop_stop' {rest : List Tok} (h : andStop rest) (l : PExpr) :
+    ∀ f, f ≥ 1 → andLoop f l rest = some (l, rest) := by
+  intro f hf; obtain ⟨g, rfl⟩ : ∃ g, f = g + 1 := ⟨f - 1, by omega⟩; exact andLoop_stop h g l
+theorem addLoop_stop' {rest : List Tok} (h : addStop rest) (l : PExpr) :
+    ∀ f, f ≥ 1 → addLoop f l rest = some (l, rest) := by
+  intro f hf; obtain ⟨g, rfl⟩ : ∃ g, f = g + 1 := ⟨f - 1, by omega⟩; exact addLoop_stop h g l
+theorem mulLoop_stop' {rest : List Tok} (h : mulStop rest) (l : PExpr) :
+    ∀ f, f ≥ 1 → mulLoop f l rest = some (l, rest) := by
+  intro f hf; obtain ⟨g, rfl⟩ : ∃ g, f = g + 1 := ⟨f - 1, by omega⟩; exact mulLoop_stop h g l
+theorem methodLoop_stop' {rest : List Tok} (h : dotStop rest) (l : PExpr) :
+    ∀ f, f ≥ 1 → methodLoop f l rest = some (l, rest) := by
+  intro f hf; obtain ⟨g, rfl⟩ : ∃ g, f = g + 1 := ⟨f - 1, by omega⟩; exact methodLoop_stop h g l
+
+/-! ## The per-level statements -/
+
+/-- Number of tokens of the minimal rendering. -/
+abbrev ntok (e : PExpr) : Nat := (renderToks e).length
+
+def S7 (e : PExpr) : Prop :=
+  ∀ rest f, f ≥ 16 * ntok e → parseAtom f (renderToks e ++ rest) = some (e, rest)
+
+def S6 (e : PExpr) : Prop :=
+  ∀ rest res m, (∀ f, f ≥ m → methodLoop f e rest = some res) →
+    ∀ f, f ≥ m + 16 * ntok e + 2 → parsePostfix f (renderToks e ++ rest) = some res
+
+def S5 (e : PExpr) : Prop :=
+  ∀ rest, Follow 6 rest → ∀ f, f ≥ 16 * ntok e + 4 →
+    parseNot f (renderToks e ++ rest) = some (e, rest)
+
+def S4 (e : PExpr) : Prop :=
+  ∀ rest res m, Follow 5 rest → (∀ f, f ≥ m → mulLoop f e rest = some res) →
+    ∀ f, f ≥ m + 16 * ntok e + 6 → parseMul f (renderToks e ++ rest) = some res
+
+def S3 (e : PExpr) : Prop :=
+  ∀ rest res m, Follow 4 rest → (∀ f, f ≥ m → addLoop f e rest = some res) →
+    ∀ f, f ≥ m + 16 * ntok e + 8 → parseAdd f (renderToks e ++ rest) = some res
+
+def S2 (e : PExpr) : Prop :=
+  ∀ rest, Follow 2 rest → ∀ f, f ≥ 16 * ntok e + 10 →
+    parseCmp f (renderToks e ++ rest) = some (e, rest)
+
+def S1 (e : PExpr) : Prop :=
+  ∀ rest res m, Follow 2 rest → (∀ f, f ≥ m → andLoop f e rest = some res) →
+    ∀ f, f ≥ m + 16 * ntok e + 12 → parseAnd f (renderToks e ++ rest) = some res
+
+def S0 (e : PExpr) : Prop :=
+  ∀ rest res m, Follow 1 rest → (∀ f, f ≥ m → orLoop f e rest = some res) →
+    ∀ f, f ≥ m + 16 * ntok e + 14 → parseOr f (renderToks e ++ rest) = some res
+
+/-- The rendering does not start with `!` (true of everything at method level or above). -/
+def NoBang (e : PExpr) : Prop := ∀ rest r, renderToks e ++ rest = .punct '!' :: r → False
+
+/-! ## Descending through the levels -/
+
+theorem S6_of_S7 {e : PExpr} (h : S7 e) : S6 e := by
+  intro rest res m hloop f hf
+  obtain ⟨g, rfl⟩ : ∃ g, f = g + 1 := ⟨f - 1, by omega⟩
+  rw [parsePostfix.eq_2, h rest g (by omega)]
+  exact hloop g (by omega)
+
+theorem S5_of_S6 {e : PExpr} (hb : NoBang e) (h : S6 e) : S5 e := by
+  intro rest hF f hf
+  obtain ⟨g, rfl⟩ : ∃ g, f = g + 1 := ⟨f - 1, by omega⟩
+  rw [parseNot.eq_3 _ _ (hb rest)]
+  exact h rest (e, rest) 1 (methodLoop_stop' hF.dot e) g (by omega)
+
+theorem S4_of_S5 {e : PExpr} (h : S5 e) : S4 e := by
+  intro rest res m hF hloop f hf
+  obtain ⟨g, rfl⟩ : ∃ g, f = g + 1 := ⟨f - 1, by omega⟩
+  rw [parseMul.eq_2, h rest (hF.mono (by omega)) g (by omega)]
+  exact hloop g (by omega)
+
+theorem S3_of_S4 {e : PExpr} (h : S4 e) : S3 e := by
+  intro rest res m hF hloop f hf
+  obtain ⟨g, rfl⟩ : ∃ g, f = g + 1 := ⟨f - 1, by omega⟩
+  rw [parseAdd.eq_2, h rest (e, rest) 1 (hF.mono (by omega)) (mulLoop_stop' hF.mul e) g (by omega)]
+  exact hloop g (by omega)
+
+/-- What `parseCmp` does after its left operand when no comparison operator follows. -/
+theorem cmp_tail_stop {rest : List Tok} (h : cmpStop rest) (e : PExpr) (g : Nat) :
+    (match (some (e, rest) : Option (PExpr × List Tok)) with
+      | none => none
+      | some (l, t :: rest) =>
+        match cmpOfTok t with
+        | some op =>
+          match parseAdd g rest with
+          | none => none
+          | some (r, rest') => some (PExpr.bin op l r, rest')
+        | none => some (l, t :: rest)
+      | some (l, []) => some (l, [])) = some (e, rest) := by
+  cases rest with
+  | nil => rfl
+  | cons t r => simp only [h t r rfl]
+
+theorem S2_of_S3 {e : PExpr} (h : S3 e) : S2 e := by
+  intro rest hF f hf
+  obtain ⟨g, rfl⟩ : ∃ g, f = g + 1 := ⟨f - 1, by omega⟩
+  rw [parseCmp.eq_2, h rest (e, rest) 1 (hF.mono (by omega)) (addLoop_stop' hF.add e) g (by omega)]
+  exact cmp_tail_stop hF.cmp e g
+
+theorem S1_of_S2 {e : PExpr} (h : S2 e) : S1 e := by
+  intro rest res m hF hloop f hf
+  obtain ⟨g, rfl⟩ : ∃ g, f = g + 1 := ⟨f - 1, by omega⟩
+  rw [parseAnd.eq_2, h rest hF g (by omega)]
+  exact hloop g (by omega)
+
+theorem S0_of_S1 {e : PExpr} (h : S1 e) : S0 e := by
+  intro rest res m hF hloop f hf
+  obtain ⟨g, rfl⟩ : ∃ g, f = g + 1 := ⟨f - 1, by omega⟩
+  rw [parseOr.eq_2, h rest (e, rest) 1 (hF.mono (by omega)) (andLoop_stop' hF.and e) g (by omega)]
+  exact hloop g (by omega)
+
+/-! ## One node of the tree at its own level -/
+
+theorem S0_or {a b : PExpr} (ha : S0 a) (hb : S1 b) : S0 (.bin .or a b) := by
+  intro rest res m hF hloop f hf
+  have hn : ntok (.bin .or a b) = ntok a + 1 + ntok b := by
+    simp [ntok, renderToks, binTok]; omega
+  have ht : renderToks (.bin .or a b) ++ rest = renderToks a ++ (.orOp :: (renderToks b ++ rest)) := by
+    simp [renderToks, binTok]
+  rw [ht]
+  refine ha _ res (m + 16 * ntok b + 14) ?_ ?_ f (by omega)
+  · simp [Follow, andStop, cmpStop, addStop, mulStop, dotStop, cmpOfTok, addOfTok, mulOfTok]
+  · intro f' hf'
+    obtain ⟨g, rfl⟩ : ∃ g, f' = g + 1 := ⟨f' - 1, by omega⟩
+    rw [orLoop.eq_2, hb rest (b, rest) 1 (hF.mono (by omega)) (andLoop_stop' hF.and b) g (by omega)]
+    exact hloop g (by omega)
+
+theorem S1_and {a b : PExpr} (ha : S1 a) (hb : S2 b) : S1 (.bin .and a b) := by
+  intro rest res m hF hloop f hf
+  have hn : ntok (.bin .and a b) = ntok a + 1 + ntok b := by
+    simp [ntok, renderToks, binTok]; omega
+  have ht : renderToks (.bin .and a b) ++ rest = renderToks a ++ (.andOp :: (renderToks b ++ rest)) := by
+    simp [renderToks, binTok]
+  rw [ht]
+  refine ha _ res (m + 16 * ntok b + 14) ?_ ?_ f (by omega)
+  · simp [Follow, cmpStop, addStop, mulStop, dotStop, cmpOfTok, addOfTok, mulOfTok]
+  · intro f' hf'
+    obtain ⟨g, rfl⟩ : ∃ g, f' = g + 1 := ⟨f' - 1, by omega⟩
+    rw [andLoop.eq_2, hb rest hF g (by omega)]
+    exact hloop g (by omega)
+
+theorem S2_cmp' {a b : PExpr} {op : BinOp} {t : Tok} (hbt : binTok op = some t)
+    (hct : cmpOfTok t = some op) (hFt : ∀ r, Follow 3 (t :: r)) (ha : S3 a) (hb : S3 b)
+    (rest : List Tok) (hF : Follow 3 rest) (f : Nat) (hf : f ≥ 16 * ntok (.bin op a b) + 10) :
+    parseCmp f (renderToks (.bin op a b) ++ rest) = some (.bin op a b, rest) := by
+  have hn : ntok (.bin op a b) = ntok a + 1 + ntok b := by
+    simp [ntok, renderToks, hbt]; omega
+  have ht : renderToks (.bin op a b) ++ rest = renderToks a ++ (t :: (renderToks b ++ rest)) := by
+    simp [renderToks, hbt]
+  rw [ht]
+  obtain ⟨g, rfl⟩ : ∃ g, f = g + 1 := ⟨f - 1, by omega⟩
+  rw [parseCmp.eq_2, ha _ (a, _) 1 ((hFt _).mono (by omega)) (addLoop_stop' (hFt _).add a) g (by omega)]
+  simp only [hct]
+  rw [hb rest (b, rest) 1 (hF.mono (by omega)) (addLoop_stop' hF.add b) g (by omega)]
+
+theorem S2_cmp {a b : PExpr} {op : BinOp} {t : Tok} (hbt : binTok op = some t)
+    (hct : cmpOfTok t = some op) (hFt : ∀ r, Follow 3 (t :: r)) (ha : S3 a) (hb : S3 b) :
+    S2 (.bin op a b) :=
+  fun rest hF f hf => S2_cmp' hbt hct hFt ha hb rest (hF.mono (by omega)) f hf
+
+theorem S3_add {a b : PExpr} {op : BinOp} {t : Tok} (hbt : binTok op = some t)
+    (hct : addOfTok t = some op) (hFt : ∀ r, Follow 4 (t :: r)) (ha : S3 a) (hb : S4 b) :
+    S3 (.bin op a b) := by
+  intro rest res m hF hloop f hf
+  have hn : ntok (.bin op a b) = ntok a + 1 + ntok b := by
+    simp [ntok, renderToks, hbt]; omega
+  have ht : renderToks (.bin op a b) ++ rest = renderToks a ++ (t :: (renderToks b ++ rest)) := by
+    simp [renderToks, hbt]
+  rw [ht]
+  refine ha _ res (m + 16 * ntok b + 14) (hFt _) ?_ f (by omega)
+  intro f' hf'
+  obtain ⟨g, rfl⟩ : ∃ g, f' = g + 1 := ⟨f' - 1, by omega⟩
+  rw [addLoop.eq_2]
+  simp only [hct]
+  rw [hb rest (b, rest) 1 (hF.mono (by omega)) (mulLoop_stop' hF.mul b) g (by omega)]
+  exact hloop g (by omega)
+
+theorem S4_mul {a b : PExpr} {op : BinOp} {t : Tok} (hbt : binTok op = some t)
+    (hct : mulOfTok t = some op) (hFt : ∀ r, Follow 5 (t :: r)) (ha : S4 a) (hb : S5 b) :
+    S4 (.bin op a b) := by
+  intro rest res m hF hloop f hf
+  have hn : ntok (.bin op a b) = ntok a + 1 + ntok b := by
+    simp [ntok, renderToks, hbt]; omega
+  have ht : renderToks (.bin op a b) ++ rest = renderToks a ++ (t :: (renderToks b ++ rest)) := by
+    simp [renderToks, hbt]
+  rw [ht]
+  refine ha _ res (m + 16 * ntok b + 14) (hFt _) ?_ f (by omega)
+  intro f' hf'
+  obtain ⟨g, rfl⟩ : ∃ g, f' = g + 1 := ⟨f' - 1, by omega⟩
+  rw [mulLoop.eq_2]
+  simp only [hct]
+  rw [hb rest (hF.mono (by omega)) g (by omega)]
+  exact hloop g (by omega)
+
+theorem S5_neg {e : PExpr} (h : S6 e) : S5 (.neg e) := by
+  intro rest hF f hf
+  have hn : ntok (.neg e) = ntok e + 1 := by simp [ntok, renderToks]
+  have ht : renderToks (.neg e) ++ rest = .punct '!' :: (renderToks e ++ rest) := by
+    simp [renderToks]
+  rw [ht]
+  obtain ⟨g, rfl⟩ : ∃ g, f = g + 1 := ⟨f - 1, by omega⟩
+  rw [parseNot.eq_2, h rest (e, rest) 1 (methodLoop_stop' hF.dot e) g (by omega)]
+
+theorem methodOfTok_methodTok {op : BinOp} (h : isMethOp op = true) :
+    methodOfTok (methodTok op) = some (some op) := by
+  cases op <;> first | rfl | (simp [isMethOp] at h)
+
+theorem orStop_rparen (r : List Tok) : orStop (.punct ')' :: r) := by
+  intro r' h; cases h
+
+theorem Follow_rparen (k : Nat) (r : List Tok) : Follow k (.punct ')' :: r) := by
+  simp [Follow, orStop, andStop, cmpStop, addStop, mulStop, dotStop, cmpOfTok, addOfTok, mulOfTok]
+
+theorem S6_method {recv arg : PExpr} {op : BinOp} (hop : isMethOp op = true)
+    (hr : S6 recv) (ha : S0 arg) : S6 (.method op recv arg) := by
+  intro rest res m hloop f hf
+  have hn : ntok (.method op recv arg) = ntok recv + ntok arg + 4 := by
+    simp [ntok, renderToks]; omega
+  have ht : renderToks (.method op recv arg) ++ rest =
+      renderToks recv ++ (.dot :: methodTok op :: .punct '(' :: (renderToks arg ++ (.punct ')' :: rest))) := by
+    simp [renderToks]
+  rw [ht]
+  refine hr _ res (m + 16 * ntok arg + 17) ?_ f (by omega)
+  intro f' hf'
+  obtain ⟨g, rfl⟩ : ∃ g, f' = g + 1 := ⟨f' - 1, by omega⟩
+  rw [methodLoop.eq_def]
+  simp only [methodOfTok_methodTok hop]
+  rw [ha (.punct ')' :: rest) (arg, .punct ')' :: rest) 1 (Follow_rparen 1 rest)
+    (orLoop_stop' (orStop_rparen rest) arg) g (by omega)]
+  exact hloop g (by omega)
+
+theorem S6_length {recv : PExpr} (hr : S6 recv) : S6 (.length recv) := by
+  intro rest res m hloop f hf
+  have hn : ntok (.length recv) = ntok recv + 4 := by
+    simp [ntok, renderToks]
+  have ht : renderToks (.length recv) ++ rest =
+      renderToks recv ++ (.dot :: .func "length" :: .punct '(' :: .punct ')' :: rest) := by
+    simp [renderToks]
+  rw [ht]
+  refine hr _ res (m + 1) ?_ f (by omega)
+  intro f' hf'
+  obtain ⟨g, rfl⟩ : ∃ g, f' = g + 1 := ⟨f' - 1, by omega⟩
+  rw [methodLoop.eq_def]
+  simp only [methodOfTok]
+  exact hloop g (by omega)
+
+theorem S7_paren {e : PExpr} (h : S0 e) : S7 (.paren e) := by
+  intro rest f hf
+  have hn : ntok (.paren e) = ntok e + 2 := by simp [ntok, renderToks]
+  have ht : renderToks (.paren e) ++ rest = .punct '(' :: (renderToks e ++ (.punct ')' :: rest)) := by
+    simp [renderToks]
+  rw [ht]
+  obtain ⟨g, rfl⟩ : ∃ g, f = g + 1 := ⟨f - 1, by omega⟩
+  rw [parseAtom.eq_2, h (.punct ')' :: rest) (e, .punct ')' :: rest) 1 (Follow_rparen 1 rest)
+    (orLoop_stop' (orStop_rparen rest) e) g (by omega)]
+  rfl
+
+/-! ## Terms -/
+
+/-- One non-set term as a token (the inner `match` of `renderTermToks`). -/
+def atomToks : PTerm → List Tok
+  | .param n => [Tok.param n] | .var n => [.var n] | .int ds => [.int ds] | .str s => [.str s]
+  | .date s => [.date s] | .bytes ds => [.hex ds] | .bool b => [.bool b] | .set _ => []
+
+theorem renderTermToks_set (elts : List PTerm) :
+    renderTermToks (.set elts) =
+      [.punct '['] ++ renderTermToks.joinToks (elts.map atomToks) ++ [.punct ']'] := by
+  rfl
+
+theorem renderTermToks_atom {t : PTerm} (h : AtomOK t) : renderTermToks t = atomToks t := by
+  cases t <;> first | rfl | exact absurd h (by simp [AtomOK])
+
+theorem parseAtomTerm_atom {t : PTerm} (h : AtomOK t) (rest : List Tok) :
+    parseAtomTerm (atomToks t ++ rest) = some (t, rest) := by
+  cases t <;> first | rfl | exact absurd h (by simp [AtomOK])
+
+def commaStop (rest : List Tok) : Prop := ∀ r, rest = .punct ',' :: r → False
+
+theorem parseAtomList_join (elts : List PTerm) (hne : elts ≠ []) (hok : ∀ t ∈ elts, AtomOK t)
+    (rest : List Tok) (hr : commaStop rest) (f : Nat) (hf : f ≥ elts.length) :
+    parseAtomList f (renderTermToks.joinToks (elts.map atomToks) ++ rest) = some (elts, rest) := by
+  induction elts generalizing f with
+  | nil => exact absurd rfl hne
+  | cons t ts ih =>
+    obtain ⟨g, rfl⟩ : ∃ g, f = g + 1 := ⟨f - 1, by simp at hf; omega⟩
+    have ht := hok t (by simp)
+    cases ts with
+    | nil =>
+      simp only [List.map, renderTermToks.joinToks]
+      rw [parseAtomList.eq_2, parseAtomTerm_atom ht]
+      cases rest with
+      | nil => rfl
+      | cons x xs =>
+        split
+        · next heq => simp at heq
+        · next heq =>
+          simp only [Option.some.injEq, Prod.mk.injEq] at heq
+          exact absurd heq.2 (fun h => hr _ h)
+        · next heq => simp only [Option.some.injEq, Prod.mk.injEq] at heq; obtain ⟨rfl, rfl⟩ := heq; rfl
+    | cons t' ts' =>
+      have := ih (by simp) (fun x hx => hok x (by simp [hx])) g (by simp at hf ⊢; omega)
+      simp only [List.map, renderTermToks.joinToks, List.append_assoc,
+        List.cons_append] at this ⊢
+      rw [parseAtomList.eq_2, parseAtomTerm_atom ht]
+      simp only [List.nil_append, this]
+
+theorem length_le_joinToks (elts : List PTerm) (hok : ∀ t ∈ elts, AtomOK t) :
+    elts.length ≤ (renderTermToks.joinToks (elts.map atomToks)).length := by
+  induction elts with
+  | nil => simp
+  | cons t ts ih =>
+    have h1 : (atomToks t).length = 1 := by
+      have := hok t (by simp)
+      cases t <;> first | rfl | exact absurd this (by simp [AtomOK])
+    cases ts with
+    | nil => simp [renderTermToks.joinToks, h1]
+    | cons t' ts' =>
+      have := ih (fun x hx => hok x (by simp [hx]))
+      simp only [List.map, renderTermToks.joinToks, List.length_append, List.length_cons,
+        List.length_nil] at this ⊢
+      omega
+
+theorem S7_term {t : PTerm} (h : TermOK t) : S7 (.term t) := by
+  intro rest f hf
+  by_cases hs : AtomOK t
+  · have hn : ntok (.term t) = 1 := by
+      cases t <;> first | rfl | exact absurd hs (by simp [AtomOK])
+    obtain ⟨g, rfl⟩ : ∃ g, f = g + 1 := ⟨f - 1, by omega⟩
+    have hr : renderToks (.term t) = atomToks t := renderTermToks_atom hs
+    rw [hr, parseAtom.eq_3, parseTerm.eq_2, parseAtomTerm_atom hs]
+    · intro r hx; cases t <;> simp [atomToks] at hx; exact hs
+    · intro r hx; cases t <;> simp [atomToks] at hx; exact hs
+  · cases t with
+    | set elts =>
+      obtain ⟨hne, hok⟩ := h
+      have hr : renderToks (.term (.set elts)) ++ rest =
+          .punct '[' :: (renderTermToks.joinToks (elts.map atomToks) ++ (.punct ']' :: rest)) := by
+        show renderTermToks (.set elts) ++ rest = _
+        rw [renderTermToks_set]; simp
+      have hn : ntok (.term (.set elts)) =
+          (renderTermToks.joinToks (elts.map atomToks)).length + 2 := by
+        show (renderTermToks (.set elts)).length = _
+        rw [renderTermToks_set]; simp
+      have hl := length_le_joinToks elts hok
+      obtain ⟨g, rfl⟩ : ∃ g, f = g + 1 := ⟨f - 1, by omega⟩
+      rw [hr, parseAtom.eq_3, parseTerm.eq_1,
+        parseAtomList_join elts hne hok _ (by intro r hx; simp at hx) g (by omega)]
+      · rfl
+      · intro r hx; simp at hx
+    | _ => exact absurd trivial hs
+
+theorem noBang_of_lvl (e : PExpr) (h : WFx e) (hl : 6 ≤ lvl e) : NoBang e := by
+  induction e with
+  | term t =>
+    intro rest r hx
+    cases t <;> simp [renderToks, renderTermToks] at hx
+  | paren e _ => intro rest r hx; simp [renderToks] at hx
+  | neg e _ => simp [lvl] at hl
+  | bin op a b _ _ =>
+    have : lvl (.bin op a b) ≤ 4 := h.2.2.1
+    omega
+  | method op recv arg ihr _ =>
+    intro rest r hx
+    have := ihr h.2.1 h.2.2.2
+    simp only [renderToks, List.append_assoc] at hx
+    exact this _ _ hx
+  | length recv ihr =>
+    intro rest r hx
+    have := ihr h.1 h.2
+    simp only [renderToks, List.append_assoc] at hx
+    exact this _ _ hx
+
+/-! ## All levels at once -/
+
+structure Reads (e : PExpr) : Prop where
+  s7 : 7 ≤ lvl e → S7 e
+  s6 : 6 ≤ lvl e → S6 e
+  s5 : 5 ≤ lvl e → S5 e
+  s4 : 4 ≤ lvl e → S4 e
+  s3 : 3 ≤ lvl e → S3 e
+  s2 : 2 ≤ lvl e → S2 e
+  s1 : 1 ≤ lvl e → S1 e
+  s0 : S0 e
+
+theorem Reads.of0 {e : PExpr} (hl : lvl e < 1) (h : S0 e) : Reads e :=
+  ⟨fun _ => by omega, fun _ => by omega, fun _ => by omega, fun _ => by omega,
+   fun _ => by omega, fun _ => by omega, fun _ => by omega, h⟩
+theorem Reads.of1 {e : PExpr} (hl : lvl e < 2) (h : S1 e) : Reads e :=
+  ⟨fun _ => by omega, fun _ => by omega, fun _ => by omega, fun _ => by omega,
+   fun _ => by omega, fun _ => by omega, fun _ => h, S0_of_S1 h⟩
+theorem Reads.of2 {e : PExpr} (hl : lvl e < 3) (h : S2 e) : Reads e :=
+  ⟨fun _ => by omega, fun _ => by omega, fun _ => by omega, fun _ => by omega,
+   fun _ => by omega, fun _ => h, fun _ => S1_of_S2 h, S0_of_S1 (S1_of_S2 h)⟩
+theorem Reads.of3 {e : PExpr} (hl : lvl e < 4) (h : S3 e) : Reads e :=
+  ⟨fun _ => by omega, fun _ => by omega, fun _ => by omega, fun _ => by omega,
+   fun _ => h, fun _ => S2_of_S3 h, fun _ => S1_of_S2 (S2_of_S3 h), S0_of_S1 (S1_of_S2 (S2_of_S3 h))⟩
+theorem Reads.of4 {e : PExpr} (hl : lvl e < 5) (h : S4 e) : Reads e :=
+  have h3 := S3_of_S4 h
+  ⟨fun _ => by omega, fun _ => by omega, fun _ => by omega, fun _ => h,
+   fun _ => h3, fun _ => S2_of_S3 h3, fun _ => S1_of_S2 (S2_of_S3 h3), S0_of_S1 (S1_of_S2 (S2_of_S3 h3))⟩
+theorem Reads.of5 {e : PExpr} (hl : lvl e < 6) (h : S5 e) : Reads e :=
+  have h4 := S4_of_S5 h
+  have h3 := S3_of_S4 h4
+  ⟨fun _ => by omega, fun _ => by omega, fun _ => h, fun _ => h4,
+   fun _ => h3, fun _ => S2_of_S3 h3, fun _ => S1_of_S2 (S2_of_S3 h3), S0_of_S1 (S1_of_S2 (S2_of_S3 h3))⟩
+theorem Reads.of6 {e : PExpr} (hl : lvl e < 7) (nb : NoBang e) (h : S6 e) : Reads e :=
+  have h5 := S5_of_S6 nb h
+  have h4 := S4_of_S5 h5
+  have h3 := S3_of_S4 h4
+  ⟨fun _ => by omega, fun _ => h, fun _ => h5, fun _ => h4,
+   fun _ => h3, fun _ => S2_of_S3 h3, fun _ => S1_of_S2 (S2_of_S3 h3), S0_of_S1 (S1_of_S2 (S2_of_S3 h3))⟩
+theorem Reads.of7 {e : PExpr} (nb : NoBang e) (h : S7 e) : Reads e :=
+  have h6 := S6_of_S7 h
+  have h5 := S5_of_S6 nb h6
+  have h4 := S4_of_S5 h5
+  have h3 := S3_of_S4 h4
+  ⟨fun _ => h, fun _ => h6, fun _ => h5, fun _ => h4,
+   fun _ => h3, fun _ => S2_of_S3 h3, fun _ => S1_of_S2 (S2_of_S3 h3), S0_of_S1 (S1_of_S2 (S2_of_S3 h3))⟩
+
+theorem follow_op (k : Nat) (s : String) (r : List Tok)
+    (h2 : k ≤ 2 → cmpOfTok (.op s) = none) (h3 : k ≤ 3 → addOfTok (.op s) = none)
+    (h4 : k ≤ 4 → mulOfTok (.op s) = none) (hk : 1 ≤ k) : Follow k (.op s :: r) := by
+  refine ⟨fun h => by omega, fun _ r' h => (by cases h), fun h t r' hx => ?_, fun h t r' hx => ?_,
+    fun h t r' hx => ?_, fun _ r' h => (by cases h)⟩
+  · cases hx; exact h2 h
+  · cases hx; exact h3 h
+  · cases hx; exact h4 h
+
+theorem follow_slash (r : List Tok) : Follow 5 (.punct '/' :: r) := by
+  simp [Follow, dotStop]
+
+/-- **Main lemma**: every well-formed tree is read back at every level up to its own. -/
+theorem reads_of_WFx (e : PExpr) (h : WFx e) : Reads e := by
+  induction e with
+  | term t => exact Reads.of7 (noBang_of_lvl _ h (by simp [lvl])) (S7_term h)
+  | paren e ih => exact Reads.of7 (noBang_of_lvl _ h (by simp [lvl])) (S7_paren (ih h).s0)
+  | neg e ih => exact Reads.of5 (by simp [lvl]) (S5_neg ((ih h.1).s6 h.2))
+  | method op recv arg ihr iha =>
+    exact Reads.of6 (by simp [lvl]) (noBang_of_lvl _ h (by simp [lvl]))
+      (S6_method h.1 ((ihr h.2.1).s6 h.2.2.2) (iha h.2.2.1).s0)
+  | length recv ihr =>
+    exact Reads.of6 (by simp [lvl]) (noBang_of_lvl _ h (by simp [lvl]))
+      (S6_length ((ihr h.1).s6 h.2))
+  | bin op a b iha ihb =>
+    obtain ⟨wa, wb, h4, hc⟩ := h
+    have ra := iha wa
+    have rb := ihb wb
+    rw [lvl_bin] at h4 hc
+    cases op <;> simp [opLvl] at h4 hc
+    · -- lt
+      exact Reads.of2 (by simp [lvl]) (S2_cmp (t := .op "<") rfl rfl
+        (fun r => follow_op 3 _ r (by omega) (fun _ => rfl) (fun _ => rfl) (by omega))
+        (ra.s3 (by omega)) (rb.s3 (by omega)))
+    · -- le
+      exact Reads.of2 (by simp [lvl]) (S2_cmp (t := .op "<=") rfl rfl
+        (fun r => follow_op 3 _ r (by omega) (fun _ => rfl) (fun _ => rfl) (by omega))
+        (ra.s3 (by omega)) (rb.s3 (by omega)))
+    · -- gt
+      exact Reads.of2 (by simp [lvl]) (S2_cmp (t := .op ">") rfl rfl
+        (fun r => follow_op 3 _ r (by omega) (fun _ => rfl) (fun _ => rfl) (by omega))
+        (ra.s3 (by omega)) (rb.s3 (by omega)))
+    · -- ge
+      exact Reads.of2 (by simp [lvl]) (S2_cmp (t := .op ">=") rfl rfl
+        (fun r => follow_op 3 _ r (by omega) (fun _ => rfl) (fun _ => rfl) (by omega))
+        (ra.s3 (by omega)) (rb.s3 (by omega)))
+    · -- eq
+      exact Reads.of2 (by simp [lvl]) (S2_cmp (t := .op "==") rfl rfl
+        (fun r => follow_op 3 _ r (by omega) (fun _ => rfl) (fun _ => rfl) (by omega))
+        (ra.s3 (by omega)) (rb.s3 (by omega)))
+    · -- add
+      exact Reads.of3 (by simp [lvl]) (S3_add (t := .op "+") rfl rfl
+        (fun r => follow_op 4 _ r (by omega) (by omega) (fun _ => rfl) (by omega))
+        (ra.s3 (by omega)) (rb.s4 (by omega)))
+    · -- sub
+      exact Reads.of3 (by simp [lvl]) (S3_add (t := .op "-") rfl rfl
+        (fun r => follow_op 4 _ r (by omega) (by omega) (fun _ => rfl) (by omega))
+        (ra.s3 (by omega)) (rb.s4 (by omega)))
+    · -- mul
+      exact Reads.of4 (by simp [lvl]) (S4_mul (t := .op "*") rfl rfl
+        (fun r => follow_op 5 _ r (by omega) (by omega) (by omega) (by omega))
+        (ra.s4 (by omega)) (rb.s5 (by omega)))
+    · -- div
+      exact Reads.of4 (by simp [lvl]) (S4_mul (t := .punct '/') rfl rfl follow_slash
+        (ra.s4 (by omega)) (rb.s5 (by omega)))
+    · -- and
+      exact Reads.of1 (by simp [lvl]) (S1_and (ra.s1 (by omega)) (rb.s2 (by omega)))
+    · -- or
+      exact Reads.of0 (by simp [lvl]) (S0_or ra.s0 (rb.s1 (by omega)))
+
+/-- Level 0 with an ordinary follow condition: the statement used by C14. -/
+theorem parseOr_render (e : PExpr) (h : WFx e) (rest : List Tok) (hr : Follow 0 rest)
+    (fuel : Nat) (hf : fuel ≥ 16 * (renderToks e).length + 15) :
+    parseOr fuel (renderToks e ++ rest) = some (e, rest) :=
+  (reads_of_WFx e h).s0 rest (e, rest) 1 (hr.mono (by omega)) (orLoop_stop' hr.or e) fuel
+    (by simp only [ntok]; omega)
+
+/-! ## Atoms, and the chained comparison -/
+
+theorem termOK_of_atomOK {t : PTerm} (h : AtomOK t) : TermOK t := by
+  cases t <;> first | trivial | exact absurd h id
+
+theorem length_renderTermToks_atom {t : PTerm} (h : AtomOK t) : (renderTermToks t).length = 1 := by
+  cases t <;> first | rfl | exact absurd h id
+
+theorem reads_atom {t : PTerm} (h : AtomOK t) : Reads (.term t) :=
+  reads_of_WFx (.term t) (termOK_of_atomOK h)
+
+theorem cmpOfTok_cases {t : Tok} (h : (cmpOfTok t).isSome) :
+    t = .op "<=" ∨ t = .op ">=" ∨ t = .op "<" ∨ t = .op ">" ∨ t = .op "==" := by
+  unfold cmpOfTok at h
+  split at h <;> simp_all
+
+theorem binTok_of_cmpOfTok {t : Tok} {op : BinOp} (h : cmpOfTok t = some op) : binTok op = some t := by
+  have hs : (cmpOfTok t).isSome := by simp [h]
+  rcases cmpOfTok_cases hs with rfl | rfl | rfl | rfl | rfl <;>
+    (simp [cmpOfTok] at h; subst h; rfl)
+
+theorem follow3_of_cmp {t : Tok} (h : (cmpOfTok t).isSome) (r : List Tok) : Follow 3 (t :: r) := by
+  rcases cmpOfTok_cases h with rfl | rfl | rfl | rfl | rfl <;>
+    exact follow_op 3 _ r (by omega) (fun _ => rfl) (fun _ => rfl) (by omega)
+
+/-- `a op1 b op2 c ;` after `check if`: the expression parser stops before `op2`, and nothing
+above it accepts a comparison operator. -/
+theorem chained_cmp_rejected (a b c : PTerm) (ha : AtomOK a) (hb : AtomOK b) (_hc : AtomOK c)
+    (op1 op2 : Tok) (h1 : (cmpOfTok op1).isSome) (h2 : (cmpOfTok op2).isSome) (pol : Bool)
+    (f : Nat) (hf : f ≥ 64) :
+    parseItems (f + 7) pol (.keyword "check if" :: (renderTermToks a ++ op1 ::
+      (renderTermToks b ++ op2 :: (renderTermToks c ++ [.punct ';'])))) = none := by
+  obtain ⟨o1, ho1⟩ := Option.isSome_iff_exists.mp h1
+  have hb1 := binTok_of_cmpOfTok ho1
+  have hF2 := follow3_of_cmp h2 (renderTermToks c ++ [.punct ';'])
+  have la := length_renderTermToks_atom ha
+  have lb := length_renderTermToks_atom hb
+  have hrend : renderToks (.bin o1 (.term a) (.term b)) = renderTermToks a ++ op1 :: renderTermToks b := by
+    simp [renderToks, hb1]
+  have hcmp := S2_cmp' hb1 ho1 (follow3_of_cmp h1) ((reads_atom ha).s3 (by simp [lvl]))
+    ((reads_atom hb).s3 (by simp [lvl])) _ hF2 (f + 2) (by simp [ntok, hrend, la, lb]; omega)
+  simp only [hrend, List.append_assoc, List.cons_append] at hcmp
+  have hand : andStop (op2 :: (renderTermToks c ++ [.punct ';'])) := by
+    rcases cmpOfTok_cases h2 with rfl | rfl | rfl | rfl | rfl <;> (intro r h; cases h)
+  have hor : orStop (op2 :: (renderTermToks c ++ [.punct ';'])) := by
+    rcases cmpOfTok_cases h2 with rfl | rfl | rfl | rfl | rfl <;> (intro r h; cases h)
+  have hparseAnd : parseAnd (f + 3) (renderTermToks a ++ op1 :: (renderTermToks b ++ op2 ::
+      (renderTermToks c ++ [.punct ';']))) = some (.bin o1 (.term a) (.term b), op2 :: (renderTermToks c ++ [.punct ';'])) := by
+    rw [parseAnd.eq_2, hcmp]; exact andLoop_stop hand (f + 1) _
+  have hparseOr : parseOr (f + 4) (renderTermToks a ++ op1 :: (renderTermToks b ++ op2 ::
+      (renderTermToks c ++ [.punct ';']))) = some (.bin o1 (.term a) (.term b), op2 :: (renderTermToks c ++ [.punct ';'])) := by
+    rw [parseOr.eq_2, hparseAnd]; exact orLoop_stop hor (f + 2) _
+  have helem : parseElem (f + 4) (renderTermToks a ++ op1 :: (renderTermToks b ++ op2 ::
+      (renderTermToks c ++ [.punct ';']))) = some (.expr (.bin o1 (.term a) (.term b)), op2 :: (renderTermToks c ++ [.punct ';'])) := by
+    rw [parseElem.eq_2, hparseOr]; rfl
+    intro n r hx
+    cases a <;> first | exact absurd ha id | simp [renderTermToks] at hx
+  rw [parseItems.eq_3 _ _ _ (by simp), parseItem.eq_1, parseQueries.eq_2, parseElems.eq_2, helem]
+  rcases cmpOfTok_cases h2 with rfl | rfl | rfl | rfl | rfl <;> rfl
 
 end Biscuit.Grammar
